@@ -79,7 +79,7 @@ func diskCM(name string) string {
 
 func diskTrees() []diskTree {
 	libShared := map[string]string{
-		"libs/shared/kustomization.yaml": "resources:\n- lib.yaml\n",
+		"libs/shared/kustomization.yaml": "# shared library\nresources:\n  - lib.yaml\n",
 		"libs/shared/lib.yaml":           diskCM("lib"),
 	}
 	merge := func(ms ...map[string]string) map[string]string {
